@@ -44,7 +44,12 @@ var big = strings.Repeat("0123456789", 12)
 func mkEnv(kind int, id string) (interface{}, int) {
 	switch kind {
 	case 0:
-		return lib.Msg(id, "hi"), 0
+		// a forwarded message: it names an originator that is not the sending session's node
+		m := lib.Msg(id, "hi")
+		m.From = lime.Node{Identity: lime.Identity{Name: "carol", Domain: "elsewhere.test"}, Instance: "x"}
+		m.To = lime.Node{Identity: lime.Identity{Name: "dave", Domain: "elsewhere.test"}}
+		m.SetMetadataKeyValue("hop", "1")
+		return m, 0
 	case 1:
 		return lib.Msg(id, big), 0
 	case 2:
@@ -52,7 +57,11 @@ func mkEnv(kind int, id string) (interface{}, int) {
 	case 3:
 		return lib.Req(id, "/x"), 2
 	}
-	return lib.Resp(id), 3
+	// a failure response, with its reason
+	r := lib.Resp(id)
+	r.Status = lime.CommandStatusFailure
+	r.Reason = &lime.Reason{Code: 61, Description: "no such thing"}
+	return r, 3
 }
 
 type chanAPI interface {
